@@ -8,6 +8,17 @@ PY = '/venv/bin/python'
 
 # property -> (category, level text, level note, technique, design ref)
 CLAIMED = {
+    'C11': ('other',
+            'Wire-effect extraction (engine/wire.py): every struct-format read/write of the 19 binary view pairs is extracted in source order with '
+            'its source/sink lump; version/layout gates are decided by a finite-domain evaluator for five engine configurations and, for static '
+            'props, for every StaticPropVersion member; the resulting slot sequences of reader and writer must be equal per lump (L1/L4), unpack '
+            'target and pack argument counts must equal the value slots (L2), the static prop record size must equal the declared size. Plus '
+            'structural rules: subclass-before-base isinstance order, raising length check before fixed-width string packing, RLE record shape, '
+            'escape discipline of the entity lump, physics sentinel agreement. Value equality and field-to-slot linkage beyond arity are not claimed.',
+            'Trusted: CPython ast/struct.calcsize, engine/wire.py (fails closed on format expressions outside the enumerated idioms), the constant folder. '
+            'float32 representability and find_or_insert re-indexing are outside.',
+            'static: wire-effect extraction + finite-domain evaluation of version gates, reader/writer slot-sequence agreement',
+            'DESIGN.md section 3, C11'),
     'C10': ('other',
             'Static rules over the lazily parsed lump views of class BSP: (B1) CFG must-pass-through - every lump that a view blanks when parsed '
             'is re-assigned by its writer on every normally returning path (format-variant guards shared with the reader excepted); (B2) dependency '
